@@ -526,7 +526,7 @@ var floatPool = []float64{0, 1, -1, 2, 3, 10, 0.5, 1.5, 2.5, -2.5, -0.5, 3.7, 1e
 	9007199254740992, 9007199254740993, 9223372036854775807, 9223372036854775808, -9223372036854775808, 1e19, 1e21, 1e308, 5e-324, 1e-7, 0.1, 100, 7, 4611686018427387904}
 var jnumPool = []string{"0", "1", "-1", "2", "3", "10", "0.5", "1.5", "2.5", "-2.5", "1e2", "1E2", "1E+2", "-1E3", "5E-1", "1.0E2", "1e+2", "0.0", "-0.0", "2.9999999999", "0.9999999999", "1.50", "100e-2", "2147483647", "2147483648", "-2147483649",
 	"9007199254740993", "9223372036854775807", "9223372036854775808", "-9223372036854775808", "-9223372036854775809", "1e19", "1e308", "5e-324", "1e-7", "0.1", "100", "1.0", "-0", "4611686018427387904", "12345678901234567890"}
-var jnumWeird = []string{"1e400", "-1e400", "1e-400", "1e999999", "123456789012345678901234567890", bigDigits, "-" + bigDigits, bigDigits + ".5"}
+var jnumWeird = []string{"1e400", "-1e400", "1e-400", "1e999999", "123456789012345678901234567890", bigDigits, "-" + bigDigits, bigDigits + ".5", longMantissaE, "-" + longMantissaE}
 
 func (g *gen) number(repr int) any {
 	if g.p.weird && g.pct(3) {
